@@ -132,7 +132,13 @@ class _OrbitCorrectionService(_DynamicsServiceBase):
             options = self.correction_options
         
         # Cache key based on options
-        cache_key = self.make_key("correct", tuple(sorted(options.to_dict().items())))
+        # The result depends on the state the correction starts from: a memo made for
+        # another initial state / period must not be served (it would not be applied).
+        dynamics = self.domain_obj.dynamics
+        cache_key = self.make_key(
+            "correct", tuple(sorted(options.to_dict().items())),
+            dynamics.initial_state, dynamics.period,
+        )
 
         def _factory() -> tuple[np.ndarray, float, OrbitCorrectionDomainPayload, "CorrectionResult"]:
             result = self.corrector.correct(self.domain_obj, options=options)
@@ -144,10 +150,11 @@ class _OrbitCorrectionService(_DynamicsServiceBase):
                     "residual_norm": result.residual_norm,
                 }
             )
-            self.apply_correction(payload)
             return result.x_corrected, 2 * result.half_period, payload, result
 
         state, period, payload, result = self.get_or_create(cache_key, _factory)
+        # Apply also when served from the cache: the orbit must end up corrected
+        self.apply_correction(payload)
         return state, period, result
 
     def apply_correction(self, update: OrbitCorrectionDomainPayload) -> OrbitCorrectionDomainPayload:
